@@ -130,6 +130,16 @@ theorem field_eq_spec (cap : Nat) (f : Field ν) (rows : List (Row ν))
       fieldSpec (fieldFn f) (fieldRows f rows) :=
   field_engine_eq_spec cap f rows hcap
 
+/-- The fields of a query (SELECT fields and the WHERE call) do not interfere, and each one
+satisfies its definition: over ANY row sequence fed to the query's analytic engine (all rows, or
+the rows passing an analytic-free WHERE — `where_order`), column `i` of the results is
+`fieldSpec` of field `i`, while that field's live partitions fit the cap. -/
+theorem query_column_eq_spec (q : Query ν) (i : Nat) (f : Field ν) (hf : q.allFields[i]? = some f)
+    (rows : List (Row ν)) (hcap : withinCap (effCap q.cap) (fieldRows f rows) = true) :
+    (q.machine.outs q.machine.init rows).map (fun o => o.getD i none) =
+      fieldSpec (fieldFn f) (fieldRows f rows) := by
+  rw [query_column q i f hf rows, field_engine_eq_spec _ f rows hcap]
+
 /-- the oracle applies the definition exactly where the theorems' hypothesis holds: its
 incremental cap flags are `withinCap` of every prefix of the field's rows -/
 theorem oracle_cap_flags (cap : Nat) (rows : List (FRow (List KVal) (Row ν))) :
